@@ -206,6 +206,13 @@ def oracle_c06(tr, sc):
         if abs(b['t'] - want) > tolt(b['t'], want):
             kind = 'gap' if b['t'] > want else 'overlap'
             V('contiguity', 'run', f'accepted step at {b["t"]!r} follows step [{a["t"]!r}, +{a["dt"]!r}]: {kind} of {b["t"] - want:.3e}', kind=kind)
+        if cfg.get('controller_class') == 'ParaDiag' and b['block'] == a['block']:
+            # ParaDiag solves the steps of a block all at once: inside a block the start value equals the predecessor's end
+            # value only up to the residual tolerance (by construction of the method); across blocks it is handed over exactly
+            d = float(np.max(np.abs(np.asarray(b['u0_post']) - np.asarray(a['uend']))))
+            if d > 1e3 * abs(cfg['level']['restol']) * (1.0 + float(np.max(np.abs(np.asarray(a['uend']))))):
+                V('chaining', 'ParaDiag', f'step at t={b["t"]!r} (block {b["block"]} slot {b["slot"]}) starts {d:.3e} away from the end value of its predecessor (restol {cfg["level"]["restol"]:.1e})', kind='paradiag_block')
+            continue
         if not same_bytes(b['u0_post'], a['uend']):
             sp = cfg['sweeper']['params']
             lagged = P > 1 and not isinstance(sp.get('num_nodes'), list) and (sp.get('do_coll_update') or sp.get('quad_type') in ('GAUSS', 'RADAU-LEFT')) and (b['block'] == a['block'] or a['slot'] < len(ctx.blocks[a['block']]['active_slots']) - 1)
@@ -216,7 +223,7 @@ def oracle_c06(tr, sc):
     # 4. nobody starts at or beyond Tend; the run reaches Tend
     for a in ctx.attempts:
         if not a['t'] < Tend:
-            V('start_beyond_Tend', 'run', f'step attempted at t={a["t"]!r} >= Tend={Tend!r}')
+            V('start_beyond_Tend', 'run', f'step attempted at t={a["t"]!r} >= Tend={Tend!r}', kind='paradiag_solves_to_end_of_block' if cfg.get('controller_class') == 'ParaDiag' else 'other')
             break
     N = len(acc)
     # accumulated rounding of N additions, plus the controller's own absolute activity threshold of 10*eps
@@ -235,7 +242,8 @@ def oracle_c06(tr, sc):
     for p in ctx.problems:
         V('pairing', p[0], f'slot {p[1]}')
     # 6. fixed step size, no restarts: number of steps
-    fixed = not sc['faults'].get('dtnew') and not any(a.get('restart_final') or not a.get('accepted', True) for a in ctx.attempts) and not aborted
+    paradiag_past_Tend = cfg.get('controller_class') == 'ParaDiag' and any(not a['t'] < Tend for a in ctx.attempts)
+    fixed = not paradiag_past_Tend and not sc['faults'].get('dtnew') and not any(a.get('restart_final') or not a.get('accepted', True) for a in ctx.attempts) and not aborted
     if fixed and acc and all(fbits(a['dt']) == fbits(acc[0]['dt']) for a in acc):
         from fractions import Fraction as Fr
 
